@@ -196,7 +196,7 @@ func (f *Frame) instr(ins ssa.Instruction, st *State) bool {
 			f.runGhostHooks("callparam:"+pv.Name(), extra, st)
 		} else if b, ok := x.Call.Value.(*ssa.Builtin); ok && b.Name() == "delete" {
 			f.runGhostHooks("delete", map[string]Val{"deleted_map": f.val(x.Call.Args[0], st), "deleted_key": f.val(x.Call.Args[1], st)}, st)
-			} else if b, ok := x.Call.Value.(*ssa.Builtin); ok && b.Name() == "append" {
+		} else if b, ok := x.Call.Value.(*ssa.Builtin); ok && b.Name() == "append" {
 			f.runGhostHooks("append", map[string]Val{"appended_to": f.val(x.Call.Args[0], st), "result": res}, st)
 		}
 	case *ssa.Defer:
